@@ -155,7 +155,11 @@ func genC06(ctx *Ctx) {
 				related := a.Type() == b.Type() || (a.Type() == variants.DateTime && (b.Type() == variants.Long || b.Type() == variants.Integer))
 				indexing := (op == 21 && (a.Type() == variants.String || a.Type() == variants.Array) && (b.Type() == variants.Integer || b.Type() == variants.Long)) ||
 					(op == 20 && a.Type() == variants.Array) || op == 12 || op == 13
-				if !ctx.Thorough && !indexing && i != j && !(related && op >= 14 && op <= 19) && (i*131+j*17+op)%7 != int(ctx.Rnd.Int63()%7) {
+				isNum := func(v *variants.Variant) bool {
+					return v.Type() == variants.Integer || v.Type() == variants.Long || v.Type() == variants.Float || v.Type() == variants.Double
+				}
+				power := op == 6 && isNum(a) && isNum(b) // '^' is true exponentiation for ALL numeric pairs: every pair is generated
+				if !ctx.Thorough && !indexing && !power && i != j && !(related && op >= 14 && op <= 19) && (i*131+j*17+op)%7 != int(ctx.Rnd.Int63()%7) {
 					continue
 				}
 				for _, safe := range []bool{false, true} {
